@@ -50,6 +50,7 @@ struct Hash64 {
 [[noreturn]] void sim_infra_error(const char* fmt, ...) __attribute__((format(printf, 1, 2)));
 [[noreturn]] void sim_finish_ok();
 void sim_set_last_message(const char* m);
+extern const char* (*g_crash_context)();   // harness: describe what the crashing thread was doing
 void sim_note(const char* fmt, ...) __attribute__((format(printf, 1, 2)));  // goes to the trace buffer (only with --trace)
 
 // ---------------------------------------------------------------------------------
